@@ -165,3 +165,126 @@ func TestVerifC26CloseBreaksStalledWrite(t *testing.T) {
 		})
 	})
 }
+
+// ---- Close whose close_notify cannot be sent ----
+//
+// No Write is in flight; the transport's send direction is broken (every Write returns an error - a reset connection).
+// Close then fails to send its close_notify, and must still close the transport: a reader parked in UConn.Read (no
+// deadline set) returns, and so does every later call. A Close that gives up before closing the transport leaves the
+// reader parked for ever.
+
+type vf26BrokenSendConn struct {
+	net.Conn
+	broken atomic.Bool
+	closes atomic.Int32
+}
+
+func (c *vf26BrokenSendConn) Write(p []byte) (int, error) {
+	if c.broken.Load() {
+		return 0, &net.OpError{Op: "write", Net: "vfpipe", Err: fmt.Errorf("injected: connection reset by peer")}
+	}
+	return c.Conn.Write(p)
+}
+
+func (c *vf26BrokenSendConn) Close() error {
+	c.closes.Add(1)
+	return c.Conn.Close()
+}
+
+func vf26BrokenNotifyCase(parrot string, maxVers uint16, readers int, closer string) (hang, slow string, results []string) {
+	cp, sp := vfPipe()
+	wrap := &vf26BrokenSendConn{Conn: cp}
+	ccfg := vfClientConfig("stall.c26.test")
+	ccfg.OmitEmptyPsk = true
+	uc := UClient(wrap, ccfg, vf26ParrotByName(parrot).ID)
+	scfg := vfServerConfig("ecdsa", "stall.c26.test")
+	scfg.MaxVersion = maxVers
+	pair := &vfPair{CP: cp, SP: sp, Cli: uc, Srv: Server(sp, scfg)}
+	if cerr, serr := pair.Handshake(); cerr != nil || serr != nil {
+		pair.Close()
+		return "", "", []string{fmt.Sprintf("handshake: %v / %v", cerr, serr)}
+	}
+	if err := pair.Echo([]byte("before"), []byte("BEFORE")); err != nil {
+		pair.Close()
+		return "", "", []string{"echo: " + err.Error()}
+	}
+	cp.SetDeadline(time.Time{})
+	sp.SetDeadline(time.Time{})
+	wrap.broken.Store(true)
+	results = make([]string, readers+1)
+	var wg sync.WaitGroup
+	started := make(chan struct{}, readers)
+	for i := 0; i < readers; i++ {
+		wg.Add(1)
+		go func(i int) {
+			defer wg.Done()
+			started <- struct{}{}
+			n, err := uc.Read(make([]byte, 64))
+			results[i] = fmt.Sprintf("Read: %d, %v", n, err)
+		}(i)
+	}
+	for i := 0; i < readers; i++ {
+		<-started
+	}
+	time.Sleep(2 * time.Millisecond) // let the readers park in the transport
+	wg.Add(1)
+	go func() {
+		defer wg.Done()
+		var err error
+		switch closer {
+		case "Close":
+			err = uc.Close()
+		default:
+			err = uc.Close()
+			uc.Close()
+		}
+		results[readers] = fmt.Sprintf("%s: %v (transport closed %d times)", closer, err, wrap.closes.Load())
+	}()
+	done := make(chan struct{})
+	go func() { wg.Wait(); close(done) }()
+	prev := vf26ActorMarker
+	vf26ActorMarker = "vf26BrokenNotifyCase.func"
+	hang, slow = vf26Watch(done, 8*time.Second)
+	vf26ActorMarker = prev
+	cp.Close()
+	sp.Close()
+	return hang, slow, results
+}
+
+func TestVerifC26CloseWithBrokenSendDirection(t *testing.T) {
+	st := vfNewStats(t, "C26")
+	run := func(parrot string, mv uint16, readers int, closer string) {
+		st.Eval()
+		what := fmt.Sprintf("parrot=%s maxvers=%04x readers=%d closer=%s", parrot, mv, readers, closer)
+		hang, slow, results := vf26BrokenNotifyCase(parrot, mv, readers, closer)
+		if hang != "" {
+			st.Violation(vf26HardFail{}, "HANG: Close could not send its close_notify (transport writes fail) and a parked reader never returned: %s\ncase: %s\nresults so far: %v", hang, what, results)
+		}
+		if slow != "" {
+			vf26Inconclusive(st, slow+"\ncase: "+what)
+		}
+		if len(results) == readers+1 && results[readers] != "" {
+			st.Class("broken-send:closed")
+			st.NonTrivial("broken-send|" + what)
+		} else {
+			st.Class("broken-send:setup-failed")
+		}
+		st.Sample(map[string]any{"case": what, "results": results})
+	}
+	for _, mv := range []uint16{VersionTLS13, VersionTLS12} {
+		run("HelloChrome_120", mv, 1, "Close")
+		run("HelloGolang", mv, 1, "Close+Close")
+		run("HelloFirefox_120", mv, 0, "Close")
+	}
+	n := 0
+	rapid.Check(t, func(rt *rapid.T) {
+		n++
+		if n > 40 && !vfThorough() {
+			return
+		}
+		run(vf26Parrots[rapid.IntRange(0, len(vf26Parrots)-1).Draw(rt, "parrot")].Name,
+			rapid.SampledFrom([]uint16{VersionTLS13, VersionTLS12}).Draw(rt, "maxvers"),
+			rapid.IntRange(0, 1).Draw(rt, "readers"),
+			rapid.SampledFrom([]string{"Close", "Close+Close"}).Draw(rt, "closer"))
+	})
+}
